@@ -2,43 +2,41 @@
    run_chain4 is the dispatch loop of HandleMsg4 with an invocation log; the theorems hold for
    arbitrary handler functions.  load_plugins models plugins.LoadPlugins over an arbitrary
    registry (names, optional per-protocol setup functions that may fail or return nil). *)
-From Verif Require Import Base BaseProofs Net Msg4 Server4 Server4Run Server4Proofs Server4Examples.
+From Verif Require Import Base BaseProofs Net Msg4 Chain ChainProofs Server4 Server4Run Server4Proofs Server4Examples.
 Open Scope N_scope.
 
 Theorem chain_order :
-  forall (hs : list handler4) (req : msg4) (r0 : option msg4),
-  map fst (snd (run_chain4 hs 0 req r0)) = seq 0 (length (snd (run_chain4 hs 0 req r0))) /\
-  (length (snd (run_chain4 hs 0 req r0)) <= length hs)%nat.
-Proof. exact (@Server4Proofs.chain_order). Qed.
+  forall (Q R : Type) (hs : list (handler Q R)) (req : Q) (r0 : option R),
+  map fst (snd (run_chain hs 0 req r0)) = seq 0 (length (snd (run_chain hs 0 req r0))) /\
+  (length (snd (run_chain hs 0 req r0)) <= length hs)%nat.
+Proof. exact (@ChainProofs.chain_order). Qed.
 Print Assumptions chain_order.
 
 Theorem chain_threading :
-  forall (hs : list handler4) (req : msg4) (r0 : option msg4) (i : nat)
-  (h : handler4) (ri : option msg4),
+  forall (Q R : Type) (hs : list (handler Q R)) (req : Q) (r0 : option R)
+  (i : nat) (h : handler Q R) (ri : option R),
   nth_error hs i = Some h ->
-  nth_error (snd (run_chain4 hs 0 req r0)) i = Some (i, ri) ->
+  nth_error (snd (run_chain hs 0 req r0)) i = Some (i, ri) ->
   (i = 0%nat -> ri = r0) /\
   (if snd (h req ri)
   then
-  length (snd (run_chain4 hs 0 req r0)) = S i /\
-  fst (run_chain4 hs 0 req r0) = fst (h req ri)
+  length (snd (run_chain hs 0 req r0)) = S i /\ fst (run_chain hs 0 req r0) = fst (h req ri)
   else
-  nth_error (snd (run_chain4 hs 0 req r0)) (S i) = Some (S i, fst (h req ri)) /\
+  nth_error (snd (run_chain hs 0 req r0)) (S i) = Some (S i, fst (h req ri)) /\
   (S i < length hs)%nat \/
   S i = length hs /\
-  length (snd (run_chain4 hs 0 req r0)) = S i /\
-  fst (run_chain4 hs 0 req r0) = fst (h req ri)).
-Proof. exact (@Server4Proofs.chain_threading). Qed.
+  length (snd (run_chain hs 0 req r0)) = S i /\ fst (run_chain hs 0 req r0) = fst (h req ri)).
+Proof. exact (@ChainProofs.chain_threading). Qed.
 Print Assumptions chain_threading.
 
 Theorem chain_prefix_no_stop :
-  forall (hs : list handler4) (req : msg4) (r0 : option msg4) (i j : nat)
-  (rj : option msg4) (hj : handler4),
+  forall (Q R : Type) (hs : list (handler Q R)) (req : Q) (r0 : option R)
+  (i j : nat) (rj : option R) (hj : handler Q R),
   (j < i)%nat ->
-  (i < length (snd (run_chain4 hs 0 req r0)))%nat ->
+  (i < length (snd (run_chain hs 0 req r0)))%nat ->
   nth_error hs j = Some hj ->
-  nth_error (snd (run_chain4 hs 0 req r0)) j = Some (j, rj) -> snd (hj req rj) = false.
-Proof. exact (@Server4Proofs.chain_prefix_no_stop). Qed.
+  nth_error (snd (run_chain hs 0 req r0)) j = Some (j, rj) -> snd (hj req rj) = false.
+Proof. exact (@ChainProofs.chain_prefix_no_stop). Qed.
 Print Assumptions chain_prefix_no_stop.
 
 Theorem chain_result_sent :
@@ -83,8 +81,6 @@ Theorem load_plugins_exact :
   end.
 Proof. exact (@Server4Proofs.load_plugins_exact). Qed.
 Print Assumptions load_plugins_exact.
-
-Print Assumptions reply4_matches_request.
 
 
 (* Non-vacuity (proofs/Server4Examples.v): a DISCOVER through the chain [mark; set yiaddr; stop; mark]
